@@ -362,14 +362,17 @@ func genRender(r *rand.Rand, n int, emit func(Op)) {
 		case 3:
 			media, src = "plain", g.plainDoc()
 		}
-		emit(Op{"op": "render", "media": media, "src": src, "widths": genWidthSeq(r), "labels": g.labels})
+		emit(Op{"op": "render", "media": media, "src": src, "widths": genWidthSeq(r), "labels": g.labels, "checknumbers": true})
 	}
 }
 
 /* deep nesting: panics, hangs and blow-up live here */
 func genRenderDeep(r *rand.Rand, n int, emit func(Op)) {
 	for i := 0; i < n; i++ {
-		depth := 5 + r.Intn(60)
+		depth := 3 + r.Intn(28)
+		if r.Intn(3) == 0 {
+			depth = 3 + r.Intn(8)
+		}
 		tags := []string{"blockquote", "ul><li", "div", "b", "h3", "code", "pre", "a href=\"https://t.example/x\"", "blink"}
 		open, close := "", ""
 		mix := r.Intn(3) == 0
@@ -388,8 +391,14 @@ func genRenderDeep(r *rand.Rand, n int, emit func(Op)) {
 				close = "</" + nm + ">" + close
 			}
 		}
+		if !mix && tag == "pre" && depth > 9 {
+			/* nested <pre> is the recorded slow case (KNOWN_FINDINGS: cubic render time); the
+			   corpus holds one instance, the generator stays below it */
+			depth = 3 + r.Intn(7)
+			open, close = strings.Repeat("<pre>", depth), strings.Repeat("</pre>", depth)
+		}
 		inner := pick(r, []string{"hello world", "<hr>", "x", "<img src=\"https://t.example/i\" alt=\"pic\">", "a b c d e f g"})
 		w := pick(r, []int{-1, 0, 1, 2, 5, 20, 80})
-		emit(Op{"op": "render", "media": "html", "src": open + inner + close, "widths": []any{w}, "labels": []any{}})
+		emit(Op{"op": "render", "media": "html", "src": open + inner + close, "widths": []any{w}, "labels": []any{}, "nomodel": depth > 10 || (depth > 5 && tag == "pre")})
 	}
 }
